@@ -50,6 +50,14 @@ def main(argv: list) -> int:
             print("setup: asn1tools.parser not importable:", e)
             return 1
         p = Program()
+        # warm the ASN.1 parse cache (cold parse of the CDD takes tens of seconds; the cache is keyed by the text's SHA-256)
+        try:
+            from .asn1schema import Schema
+            from .rules.msgutil import MESSAGES
+            for kind, (_c, _a, _t, mod, const, _r) in MESSAGES.items():
+                Schema(p, mod, const)
+        except AnalysisError as e:
+            print(f"setup: ASN.1 cache not warmed ({e}); the checks will parse on demand")
         print(f"setup ok: {len(p.modules)} modules, {len(p.funcs)} functions under {REPO}")
         return 0 if ok else 1
     if cmd == "check":
